@@ -33,6 +33,21 @@ CHECKS = {
    text="Every history of length <= 3 over 88 operations (28 endpoint ranges x 3 references, default interval x 3, clear) is applied to a real CharReferenceMap and probed at 21 characters after every operation against a list model; 40 k (quick) / 5 M (thorough) random histories up to length 30 follow; a third sub-check observes the tokenizer-level consequence (configured state returned, disabled word range stops a word, non-Latin letters reach the word state) on real tokenizers.",
    note="Ranges ending at U+FFFF are clamped by the implementation and not asserted.",
    ref="DESIGN.md §3 C17"),
+ "C12": dict(
+   technique="runtime monitor: token positions compared with an independent line/column model at offsets derived from the option-free stream, across all 128 option sets",
+   text="The four built-in tokenizers (and two configured variants) are run on hand-written patterns, every string up to length 2 (quick) / 3 (thorough) over a 20-character alphabet, seeded random fragment concatenations and generated lexeme sequences, under all 128 option sets; each option run is aligned to the option-free run by the C15 relation and every token must carry the line/column that the independent forward-scan model gives for the offset of its first character, the end-of-input token one column past the last character. A further sub-check compares the position quoted in syntax-error messages of malformed expressions with the offending token's coordinates.",
+   note="Offsets come from the option-free stream, whose losslessness is C04's business; streams that fail the C15 relation are not judged here.",
+   ref="DESIGN.md §3 C12"),
+ "C13": dict(
+   technique="runtime monitor: generated lexeme sequences (known classes) compared with the real tokenizers' output",
+   text="Sequences of 1..8 (quick) / 1..40 (thorough) lexemes are generated from the lexical grammars of the generic and the expression tokenizer (identifiers incl. non-Latin, keywords in any case, all number notations, quoted strings with doubled quotes/newlines/non-ASCII, comments, whitespace, single and multi-character symbols) with a blank inserted wherever neighbours could merge; the real tokenizer must return exactly those (type, text) pairs. All ordered pairs and triples of the multi-character symbols and all keywords in four spellings are enumerated exhaustively.",
+   note="The adjacency table deciding where a separator is needed is conservative (may insert unnecessary blanks, never omits a needed one).",
+   ref="DESIGN.md §3 C13"),
+ "C15": dict(
+   technique="runtime monitor: relational oracle aligning every option run with the option-free run of the same real tokenizer (all 128 option sets), with the H1 loop-progress hook",
+   text="For every input the real tokenizer is run option-free and under each of the 128 option sets; the monitor checks that the option run is exactly the option-free stream with Unknown/Comment/end-of-input tokens removed iff their skip option is on, whitespace runs reduced to one token iff skip-whitespaces is on, and only the permitted rewrites (single blank, Number type, reference-decoded strings) applied; hook H1 turns a non-advancing main loop into an observation. Inputs: 41 hand-written patterns with skipped kinds between others, every string up to length 2/3 over a 20-character alphabet, random fragment concatenations, generated lexeme sequences.",
+   note="Which whitespace token of a run survives skip-whitespaces is not prescribed by the statement and not asserted. One known finding (mustache, Unknown token inside a tag) is listed in known_findings.json.",
+   ref="DESIGN.md §3 C15"),
 }
 
 NOT_YET = {}
